@@ -29,6 +29,7 @@ def run(rep, prog, tier):
     rep.rule('C16.4', 'ids written and key material used are rooted at the operating key', floor=8)
     rep.rule('C16.5', 'most recent self-signature decides (recency forms on sorted collections)', floor=4)
     rep.rule('C16.6', 'decrypt addressing: recipient match, delegation to the addressed subkey, own PKESK', floor=3)
+    rep.rule('C16.7', 'a key is locked again after every exit of an unlock scope (the C06.1 family under this property)', floor=5)
     rep.assume('SorteDeque keeps signatures sorted ascending by creation time (insort bisects on PGPSignature.__lt__ = created)')
 
     keyaction.check_table(rep, prog, 'C16.1')
@@ -40,6 +41,18 @@ def run(rep, prog, tier):
     check_pkesk_selection(rep, prog)
     check_sessionkey_consumers(rep, prog)
     check_decrypt_delegation(rep, prog)
+    check_relock(rep, prog)
+
+
+def check_relock(rep, prog):
+    """'Private operations refuse on locked keys' holds after an unlock scope only if the scope's cleanup really runs over the key and
+    every subkey on every exit: the KeyAction refusal reads `is_unlocked`, i.e. whether the secret fields are still there.  The rule
+    family is the one C06.1 decides (CFG of PGPKey.unlock: every exit after an unprotect passes a clear() over the same components, a
+    one-shot iterator is not iterated twice); relabelled here because a key that stays unlocked signs and decrypts when it must refuse
+    (seeded change C16-w6mut1)."""
+    from rules import C06
+    from rules.C02 import _Proxy
+    C06.check_unlock(_Proxy(rep, 'C16.7'), prog)
 
 
 # ------------------------------------------------------------------------------------------------ which end of a sorted collection
@@ -388,6 +401,32 @@ def check_selfsig(rep, prog):
         r = render(s.ret)
         coll = s.bound.get(r)
         if coll is None:
+            mm = re.match(r'^%s\.(\w+)$' % re.escape(me), r)
+            if mm and mm.group(1) != '_signatures':
+                # a remembered answer: it is the most recent self-signature only as long as every operation that adds or removes a
+                # signature of this identity forgets it again (seeded change C16-w6mut2: PGPUID.__or__ files a newer self-certification,
+                # the flags of the superseded one stay in effect)
+                attr = mm.group(1)
+                cls = ss.cls if hasattr(ss, 'cls') else prog.cls('pgpy.pgp', 'PGPUID')
+                stale = []
+                for name, f in sorted(cls.methods.items()):
+                    if name == '__init__' or f is ss:
+                        continue
+                    muts = [n for n in ast.walk(f.node) if isinstance(n, ast.Call) and isinstance(n.func, ast.Attribute)
+                            and isinstance(n.func.value, ast.Attribute) and n.func.value.attr == '_signatures'
+                            and n.func.attr in ('insort', 'append', 'appendleft', 'extend', 'remove', 'pop', 'popleft', 'clear', 'insert', 'resort')]
+                    muts += [n for n in ast.walk(f.node) if isinstance(n, (ast.Assign, ast.AugAssign)) and
+                             any(isinstance(t, ast.Attribute) and t.attr == '_signatures' for t in (n.targets if isinstance(n, ast.Assign) else [n.target]))]
+                    resets = [n for n in ast.walk(f.node) if isinstance(n, (ast.Assign, ast.Delete)) and
+                              any(isinstance(t, ast.Attribute) and t.attr == attr for t in n.targets)]
+                    if muts and not resets:
+                        stale.append('%s.%s' % (cls.name, name))
+                if stale:
+                    rep.violation('C16.5', 'PGPUID.selfsig', 'remembered self-signature %s' % r,
+                                  'selfsig answers from %s, which is filled once; %s change(s) the signatures of the identity without forgetting it, so a '
+                                  'newer self-certification (other key flags, other preferences) never takes effect on the live object' % (r, ', '.join(stale)),
+                                  where=ss.where, expected='the most recent self-signature at the time of the call', found='%s, not reset by %s' % (r, stale))
+                    return
             sel = recency_of(r)          # e.g. next(sig for sig in reversed(...) if ...) is not a bound variable
             raise AnalysisError('PGPUID.selfsig: returned value %s is not an element of a scanned collection (%s)' % (r, sel))
         o = order_of(_parse(coll)) if _parse(coll) is not None else None
